@@ -424,7 +424,7 @@ def witness_u2(v, tier):
 
 
 def extra_c07_bounded(prop, tier, seed):
-    """Bounded stand-ins (labelled, never counted) for the literal decoders neither verifier reaches:
+    """Bounded stand-ins (labelled, never counted) for the literal decoders neither verifier reaches, and for the CALL SITES of the integer helpers (288 boundary literals in decimal / 0x / 0X / 0b / 0B / leading-zero spellings, positive and negative, at every position: type, range bounds, .size / .lt argument, tag number, occurrence bounds, member key):
     unescape_text (chars() iterators, String building) and hex/base64 decoding (data-encoding tables).
     Differential against spec twins written from RFC 8610/9682 and RFC 4648 on the REAL parser /
     decoders over small complete domains."""
